@@ -311,6 +311,15 @@ func (g *gen) fromTo(uri string, tag string, decorate bool) string {
 	if decorate && g.chance(10) {
 		s += ";" + g.alnum(1, 5)
 	}
+	if decorate && g.chance(6) {
+		n := "x-" + g.alnum(1, 3)
+		s += ";" + n + "=" + g.alnum(1, 3) + ";" + n + "=" + g.alnum(1, 3) // the same parameter name twice
+	}
+	if decorate && g.chance(6) && (strings.Contains(s, ">;") || !strings.Contains(s, ">") && strings.Contains(s, ";")) {
+		// blanks around a ';' between two parameters (what stands between the address and the first parameter is
+		// not part of any value)
+		s += g.pick("; ", " ;", " ; ") + g.alnum(1, 4) + "=" + g.alnum(1, 4)
+	}
 	return s
 }
 
@@ -322,6 +331,8 @@ func (g *gen) paramValue() string {
 		return "\"" + g.alnum(1, 4) + "=" + g.alnum(1, 4) + "\""
 	case 1:
 		return g.alnum(2, 8) + g.pick("=", "==")
+	case 2:
+		return g.alnum(1, 4) + "%" + g.pick("41x", "d", "s", "", "20") + g.alnum(0, 3) // '%' is a token character
 	}
 	return g.alnum(1, 6)
 }
